@@ -123,6 +123,16 @@ package v2
 //@   assumes api != nil && api.route != nil
 //@   at call AlertToOpenAPIAlert assert [receivers-of-this-alert-in-a-slice-of-their-own] called("Route).Match") && allocsince("Route).Match", arg2) && len(arg2) == len(ret("Route).Match"))
 //@   loop 2 invariant allocsince("Route).Match", receivers) && len(receivers) == rangeindex + 1 && rangeindex < len(ret("Route).Match"))
-//@   opaque AlertToOpenAPIAlert alertFilter receiversMatchLabels parseFilter receiverLabelsMap requestLogger
-//@   loop 1 invariant api.route != nil
-//@   noeffect alertFilter receiverLabelsMap requestLogger AlertMarker).Status AlertIterator).Close AlertIterator).Err AlertIterator).Next Alerts).GetPending dynamic: AlertToOpenAPIAlert parseFilter receiversMatchLabels
+//@   opaque AlertToOpenAPIAlert receiversMatchLabels parseFilter receiverLabelsMap requestLogger
+//@   after call chan.recv assume res1 ==> res0 != nil && res0.Data != nil
+//@   at call AlertToOpenAPIAlert assert [only-alerts-that-pass-the-filter] called("dynamic:resultof:alertFilter") && ret("dynamic:resultof:alertFilter")
+//@   at call AlertToOpenAPIAlert assert [only-alerts-whose-receivers-pass-the-receiver-filters] (receiverFilter == nil || (called("slices.ContainsFunc") && ret("slices.ContainsFunc"))) && (len(receiverMatchers) == 0 || (called("receiversMatchLabels") && ret("receiversMatchLabels")))
+//@   at call receiversMatchLabels assert [receiver-matchers-see-this-alert's-receivers] arg0 == receivers && arg1 == receiverMatchers
+//@   at call AlertToOpenAPIAlert assert [the-alert-taken-from-the-provider] arg0 == ret("chan.recv").Data
+//@   loop 1 invariant api.route != nil && len(res) == count("AlertToOpenAPIAlert") && count("AlertToOpenAPIAlert") == counttrue0("dynamic:resultof:alertFilter")
+//@   loop 1 invariant receiverFilter == nil && len(receiverMatchers) == 0 ==> count("dynamic:resultof:alertFilter") == count("Route).Match")
+//@   loop 1 invariant !called("NewGetAlertsInternalServerError")
+//@   ensures [every-pending-alert-is-considered] !called("NewGetAlertsInternalServerError") && !called("NewGetAlertGroupsBadRequest") && !called("NewGetAlertsBadRequest") ==> called("chan.recv") && !ret1("chan.recv")
+//@   ensures [every-alert-that-passes-is-listed] !called("NewGetAlertsInternalServerError") && !called("NewGetAlertGroupsBadRequest") && !called("NewGetAlertsBadRequest") ==> count("AlertToOpenAPIAlert") == counttrue0("dynamic:resultof:alertFilter") && called("NewGetAlertsOK")
+//@   at call GetAlertsOK).WithPayload assert [the-list-is-the-answer] len(arg1) == count("AlertToOpenAPIAlert")
+//@   noeffect slices.ContainsFunc alertFilter receiverLabelsMap requestLogger AlertMarker).Status AlertIterator).Close AlertIterator).Err AlertIterator).Next Alerts).GetPending dynamic:resultof:alertFilter AlertToOpenAPIAlert parseFilter receiversMatchLabels
